@@ -81,6 +81,8 @@ def normalise(spec):
         n.update(c2=0.0, let=None)
     if n.get('let') and (n['arity'] != 2 or n['boundary'] or n['surface'] or n.get('comps')):
         n['let'] = None
+    if n.get('shadow') and (n.get('meas') != 'dx' or n.get('boundary') or n.get('surface')):
+        n['shadow'] = None
     if not n.get('mat_kind'):
         n.update(mat_shape=[2, 3], mat_ij=[0, 0])
     if n['arity'] != 2:
@@ -137,6 +139,12 @@ def build(spec, incremental=False):
         coef = coef * (getattr(vform, spec['fn'])(arg) if spec['fn'] != 'id' else arg)
     if spec['par']:
         coef = coef * V.parameter('a')
+    if spec.get('shadow') and spec['meas'] == 'dx' and not spec['boundary'] and not spec['surface']:
+        # a user variable that SHADOWS a predefined one by name (a weighted measure): finalize() refers to W by name
+        # when it expands dx.  (On the pinned tree such a form is refused with KeyError and the spec is dropped as
+        # invalid; a tree that accepts it must not confuse it with the unweighted form.)
+        from pyiga.vform import det
+        V.let('W', V.GaussWeight * abs(det(V.Jac)) * vform.as_expr(spec['shadow']))
     if spec.get('upar'):
         # a parameter that is declared but never used by any expression (it still appears in the constructor
         # signature, in parameters() and in the layout of the constants array of the generated class)
@@ -205,6 +213,7 @@ def base_spec(s):
             'mat_kind': s.pick(['', '', '', 'param', 'input']), 'mat_shape': s.pick([[2, 3], [3, 2], [2, 2]]),
             'mat_ij': [s.choice(2), s.choice(2)], 'nlet': s.pick([None, None, None, {'v': 1.5}]),
             'upar': s.pick([None, None, None, {'name': 'zz', 'shape': []}, {'name': 'zz', 'shape': [2]}]),
+            'shadow': s.pick([None] * 9 + [2.0]),
             'par': bool(s.choice(2)), 'dax': s.choice(dim), 'dtimes': 0 if comps else s.choice(3), 'dpara': False,
             'meas': {'volume': 'dx', 'nomeasure': 'none', 'boundary': 'ds', 'boundary-nomeasure': 'none'}[kind],
             'op': s.pick(['', '+', '-']), 'c2': s.pick([1.5, 4.0])}
@@ -274,6 +283,11 @@ def mutations(spec):
     if spec['comps'] and spec['dim'] == 3:
         mut('component-count', comps=(2 if spec['comps'] == 3 else 3))
     mut('parameter', par=not spec['par'])
+    if spec.get('shadow'):
+        mut('shadowed-measure-weight', shadow=spec['shadow'] + 1.0)
+        mut('shadowed-measure-present', shadow=None)
+    elif spec['meas'] == 'dx' and not spec['boundary'] and not spec['surface']:
+        mut('shadowed-measure-present', shadow=2.0)
     if spec.get('upar'):
         mut('unused-parameter-present', upar=None)
         mut('unused-parameter-shape', upar=dict(spec['upar'], shape=([] if spec['upar']['shape'] else [2])))
